@@ -7,7 +7,9 @@ import (
 	"crypto"
 	"crypto/ecdsa"
 	"fmt"
+	"hash"
 	"io"
+	"sync"
 	"time"
 
 	"github.com/scionproto/scion/control/beaconing"
@@ -50,7 +52,61 @@ func (s lightSigner) Validity() cppki.Validity {
 	return cppki.Validity{NotBefore: time.Unix(0, 0), NotAfter: s.notAfter}
 }
 
-// Extender returns the AS's real beacon extender.
+// beaconState is the per-world state of beacon construction: one long-lived extender per AS (as in
+// a control service, where originator and propagator share it) and, while several beacons are
+// extended at the same time, the scheduler that interleaves them.
+type beaconState struct {
+	mu    sync.Mutex
+	exts  map[*AS]*beaconing.DefaultExtender
+	sched *core.Sched
+}
+
+var beaconStates sync.Map // *World -> *beaconState (worlds are per run; entries die with the world)
+
+func (w *World) bstate() *beaconState {
+	if v, ok := beaconStates.Load(w); ok {
+		return v.(*beaconState)
+	}
+	bs := &beaconState{exts: map[*AS]*beaconing.DefaultExtender{}}
+	beaconStates.Store(w, bs)
+	return bs
+}
+
+// yieldHash wraps the hop-field MAC so that every operation on it is a scheduling point.
+type yieldHash struct {
+	hash.Hash
+	bs *beaconState
+}
+
+func (y *yieldHash) yield(site string) {
+	y.bs.mu.Lock()
+	s := y.bs.sched
+	y.bs.mu.Unlock()
+	if s != nil {
+		s.Yield(site)
+	}
+}
+func (y *yieldHash) Write(b []byte) (int, error) { y.yield("mac.write"); return y.Hash.Write(b) }
+func (y *yieldHash) Sum(b []byte) []byte         { y.yield("mac.sum"); return y.Hash.Sum(b) }
+func (y *yieldHash) Reset()                      { y.yield("mac.reset"); y.Hash.Reset() }
+
+// extenderOf returns the AS's long-lived real extender.
+func (w *World) extenderOf(a *AS) *beaconing.DefaultExtender {
+	bs := w.bstate()
+	bs.mu.Lock()
+	defer bs.mu.Unlock()
+	if e := bs.exts[a]; e != nil {
+		return e
+	}
+	e := a.Extender(a.MaxExp, time.Date(2100, 1, 1, 0, 0, 0, 0, time.UTC))
+	inner := a.MacFac
+	e.MAC = func() hash.Hash { return &yieldHash{Hash: inner(), bs: bs} }
+	e.EPIC = w.EPIC
+	bs.exts[a] = e
+	return e
+}
+
+// Extender returns a fresh real beacon extender of the AS.
 func (a *AS) Extender(maxExp uint8, signerNotAfter time.Time) *beaconing.DefaultExtender {
 	return &beaconing.DefaultExtender{
 		IA: a.IA,
@@ -108,8 +164,7 @@ func (w *World) walkSeg(ts time.Time, segID uint16, ases []*AS, in, eg []uint16,
 		if !coreSeg {
 			peers = a.peerIfIDs()
 		}
-		ext := a.Extender(a.MaxExp, ts.Add(1000*time.Hour))
-		ext.EPIC = w.EPIC
+		ext := w.extenderOf(a)
 		// the accumulator value at this moment, derived by the simulator from the beacon as it is
 		// (documented chaining rule: initial value, then XOR of the first two MAC bytes per entry)
 		beta := ps.Info.SegmentID
@@ -122,12 +177,15 @@ func (w *World) walkSeg(ts time.Time, segID uint16, ases []*AS, in, eg []uint16,
 		e := ps.ASEntries[len(ps.ASEntries)-1]
 		hf := e.HopEntry.HopField
 		tsu := uint32(ps.Info.Timestamp.Unix())
+		bs := w.bstate()
+		bs.mu.Lock()
 		w.consBeta[consKey(a, hf.MAC[:], hf.ConsIngress, hf.ConsEgress, tsu)] = beta
 		s.Betas = append(s.Betas, beta)
 		peerBeta := beta ^ (uint16(hf.MAC[0])<<8 | uint16(hf.MAC[1]))
 		for _, pe := range e.PeerEntries {
 			w.consBeta[consKey(a, pe.HopField.MAC[:], pe.HopField.ConsIngress, pe.HopField.ConsEgress, tsu)] = peerBeta
 		}
+		bs.mu.Unlock()
 	}
 	return s, nil
 }
@@ -140,6 +198,15 @@ func consKey(a *AS, mac []byte, in, eg uint16, ts uint32) string {
 // propagation along seed-chosen simple walks, termination (registration) at every AS reached.
 func (w *World) GenSegments(r *core.Run, ts time.Time, maxPerOrigin int) (*Segments, error) {
 	out := &Segments{}
+	defer beaconStates.Delete(w)
+	type job struct {
+		ts     time.Time
+		segID  uint16
+		ases   []*AS
+		in, eg []uint16
+		core   bool
+	}
+	var jobs []job
 	for _, o := range w.ASes {
 		if !o.Core {
 			continue
@@ -164,15 +231,7 @@ func (w *World) GenSegments(r *core.Run, ts time.Time, maxPerOrigin int) (*Segme
 						// beacons are originated at different times: per-segment timestamps
 						sts = ts.Add(-time.Duration(r.Choice("segts.jitter.s", int(w.SegJitter/time.Second)+1)) * time.Second)
 					}
-					s, err := w.walkSeg(sts, segID, append([]*AS(nil), f.ases...), in, eg, coreWalk)
-					if err != nil {
-						return err
-					}
-					if coreWalk {
-						out.Core = append(out.Core, s)
-					} else {
-						out.Down = append(out.Down, s)
-					}
+					jobs = append(jobs, job{sts, segID, append([]*AS(nil), f.ases...), in, eg, coreWalk})
 					count++
 				}
 				if depth >= 4 || count >= maxPerOrigin {
@@ -217,6 +276,63 @@ func (w *World) GenSegments(r *core.Run, ts time.Time, maxPerOrigin int) (*Segme
 			if err := dfs(frame{[]*AS{o}, []uint16{0}, nil}, 0); err != nil {
 				return nil, err
 			}
+		}
+	}
+	// construction: one beacon at a time, or (ConcBeacon) a few at a time as real goroutines that the
+	// seeded scheduler interleaves at every MAC operation of the ASes' shared extenders
+	res := make([]*Seg, len(jobs))
+	errs := make([]error, len(jobs))
+	if !w.Knobs.ConcBeacon {
+		for i, j := range jobs {
+			if res[i], errs[i] = w.walkSeg(j.ts, j.segID, j.ases, j.in, j.eg, j.core); errs[i] != nil {
+				return nil, errs[i]
+			}
+		}
+	} else {
+		bs := w.bstate()
+		for start := 0; start < len(jobs); {
+			n := min(2+r.Choice("beacon.batch", 3), len(jobs)-start)
+			sched := core.NewSched()
+			bs.mu.Lock()
+			bs.sched = sched
+			bs.mu.Unlock()
+			for k := start; k < start+n; k++ {
+				go func(k int) {
+					sched.Register(fmt.Sprintf("walk:%d", k))
+					defer sched.Done()
+					sched.Yield("start")
+					j := jobs[k]
+					res[k], errs[k] = w.walkSeg(j.ts, j.segID, j.ases, j.in, j.eg, j.core)
+				}(k)
+			}
+			for steps := 0; ; steps++ {
+				if sched.Step(r, nil) == nil {
+					if bl := sched.Blocked(); len(bl) > 0 {
+						panic(core.InfraError{Msg: "beacon walk blocked outside a yield point: " + bl[0].Name})
+					}
+					break
+				}
+				if steps > 200000 {
+					panic(core.InfraError{Msg: "beacon construction does not end"})
+				}
+			}
+			bs.mu.Lock()
+			bs.sched = nil
+			bs.mu.Unlock()
+			r.Probe("beacons-extended-concurrently")
+			for k := start; k < start+n; k++ {
+				if errs[k] != nil {
+					return nil, errs[k]
+				}
+			}
+			start += n
+		}
+	}
+	for i, j := range jobs {
+		if j.core {
+			out.Core = append(out.Core, res[i])
+		} else {
+			out.Down = append(out.Down, res[i])
 		}
 	}
 	return out, nil
